@@ -3,8 +3,9 @@
 
    Model (WakeModel.v): one connection's write queue and isWAdded flag (conn_unix.go: Write/Writev/Sendfile tails,
    modWrite, resetRead, flush), the registration order of addConn / addDialer and the poller's event handling
-   (poller_epoll.go: readWriteLoop, setRead/setReadWrite incl. the no-op MOD in pure ET, ResetPollerEvent), coupled with a
-   kernel send buffer (room, SOCK_NOSPACE) and the descriptor's epoll entry (registered, EPOLLOUT in the mask, ONESHOT
+   (poller_epoll.go: readWriteLoop, setRead/setReadWrite incl. the no-op MOD in pure ET, ResetPollerEvent; the dispatch of
+   the read part incl. the gate of Conn.AsyncRead: an event absorbed by the running read task is re-armed by that task),
+   coupled with a kernel send buffer (room, SOCK_NOSPACE) and the descriptor's epoll entry (registered, EPOLLOUT in the mask, ONESHOT
    armed, pending ET report). Actions are the critical sections of Conn.mux and the kernel steps; application writes are
    enabled at any time from any goroutine (inside open / data / close callbacks, before or after the registration), so the
    theorems quantify over all interleavings at that granularity.
